@@ -142,6 +142,21 @@ Theorem fair_period_converges : forall s, snd (fair s) = OC -> same_state (fst (
 Proof. exact fair_period_converges_proved. Qed.
 Print Assumptions fair_period_converges.
 
+(* REFUTED by the faithful model (and by the code: findings/known.txt
+   QUIESCED-RESTARTED-NONVOTING-BEHIND, witness corpus/R22/restarted_nonvoting_in_quiesced_shard.txt):
+   "after an idle period every running reachable member has caught up". A non-voting replica
+   that is restarted while every other replica sleeps hears nothing, knows no leader and never
+   campaigns; it stays behind until the next request wakes the shard (then it catches up). *)
+Theorem restarted_nonvoting_in_quiesced_shard_stays_behind_refuted :
+  exists ops, let r := shard_run (shard_init true 30 0 3) ops in
+    last (snd r) LPlain = LLag true /\ same_state (fst r) = false /\
+    same_state (fst (fair (fst r))) = true.
+Proof.
+  exists [SAdd 1 4 k_nonvoting; SXfer 1; SStop 4; SP 2 3; SQuiesce; SStart 4; SLag 4].
+  vm_compute. repeat split; reflexivity.
+Qed.
+Print Assumptions restarted_nonvoting_in_quiesced_shard_stays_behind_refuted.
+
 (* ---- non-vacuity ---- *)
 (* three voters, quiesce on; leader pinned to 2, everything goes quiet, host 2 stops: the shard is
    quiesced, host 1 is connected to a quorum, a proposal on host 1 completes, everyone is awake *)
